@@ -21,10 +21,14 @@ package main
 import (
 	"fmt"
 	"go/ast"
+	"go/printer"
 	"go/token"
 	"go/types"
+	"io"
 	"strings"
 )
+
+func printerFprint(w io.Writer, pi *pkgInfo, n ast.Node) { printer.Fprint(w, pi.pkg.Fset, n) }
 
 // ---------------------------------------------------------------------------------------
 // dynamic types
@@ -50,6 +54,7 @@ type dynType struct {
 	fields []string // kSPtr: supported fields
 	ftys   []gtyp
 	all    []string // kSPtr: every field name, for the comment
+	rest   bool     // kSPtr: the struct has fields that are not modelled: one abstract component for them
 }
 
 const tDyn gtyp = 100
@@ -124,6 +129,7 @@ func goTypeDyn(t types.Type) gtyp {
 		if len(d.fields) == 0 {
 			return tBad
 		}
+		d.rest = len(d.fields) < len(d.all)
 		return addDyn("sptr:"+n.String(), d)
 	}
 	if sg, ok := t.Underlying().(*types.Signature); ok && !sg.Variadic() && sg.Results().Len() == 1 && sg.Recv() == nil {
@@ -186,16 +192,29 @@ func goTypeDyn(t types.Type) gtyp {
 	return tBad
 }
 
-// definitions for a value-modelled struct: the tuple type, a partial getter and setter per field
+// definitions for a value-modelled struct: the tuple type, a partial getter and setter per field.
+// Fields that are not modelled (pointers, maps) are ONE abstract component of type <base>_rest,
+// a variable of the section together with a boolean equality on it: enough for nil tests, reads
+// and writes of the modelled fields, and reflect.DeepEqual of two such values.
 func sptrDefs(d *dynType) string {
 	var b strings.Builder
-	var tys, xs []string
+	var tys, xs, ys0 []string
 	for i := range d.fields {
 		tys = append(tys, d.ftys[i].coq())
 		xs = append(xs, fmt.Sprintf("x%d", i+1))
+		ys0 = append(ys0, fmt.Sprintf("y%d", i+1))
 	}
-	fmt.Fprintf(&b, "(* type %s struct { %s }: the fields %s; a *%s is an option (None = nil) *)\n",
-		d.named.Obj().Name(), strings.Join(d.all, ", "), strings.Join(d.fields, ", "), d.named.Obj().Name())
+	fmt.Fprintf(&b, "(* type %s struct { %s }: the fields %s", d.named.Obj().Name(), strings.Join(d.all, ", "), strings.Join(d.fields, ", "))
+	if d.rest {
+		fmt.Fprintf(&b, " and one abstract component for the others")
+		tys = append(tys, d.base+"_rest")
+		xs = append(xs, "xr")
+		ys0 = append(ys0, "yr")
+	}
+	fmt.Fprintf(&b, "; a *%s is an option (None = nil) *)\n", d.named.Obj().Name())
+	if d.rest {
+		fmt.Fprintf(&b, "Context {%s_rest : Type}.\nVariable %s_rest_eqb : %s_rest -> %s_rest -> bool.\n", d.base, d.base, d.base, d.base)
+	}
 	fmt.Fprintf(&b, "Definition %s : Type := (%s)%%type.\n", d.base, strings.Join(tys, " * "))
 	pat := tuple(xs)
 	for i, fl := range d.fields {
@@ -206,7 +225,31 @@ func sptrDefs(d *dynType) string {
 		fmt.Fprintf(&b, "Definition %s_set_%s (p : option %s) (v : %s) : res (option %s) :=\n  match p with Some %s => Ok (Some %s) | None => Panic end.\n",
 			d.base, fl, d.base, d.ftys[i].coq(), d.base, pat, tuple(ys))
 	}
+	// reflect.DeepEqual of two pointers to this struct
+	var eqs []string
+	for i := range d.fields {
+		switch d.ftys[i] {
+		case tStr:
+			eqs = append(eqs, "beq "+xs[i]+" "+ys0[i])
+		case tBool:
+			eqs = append(eqs, "Bool.eqb "+xs[i]+" "+ys0[i])
+		case tInt:
+			eqs = append(eqs, "("+xs[i]+" =? "+ys0[i]+")")
+		}
+	}
+	if d.rest {
+		eqs = append(eqs, d.base+"_rest_eqb xr yr")
+	}
+	fmt.Fprintf(&b, "Definition %s_eqb (p q : option %s) : bool :=\n  match p, q with\n  | Some %s, Some %s => %s\n  | None, None => true\n  | _, _ => false\n  end.\n",
+		d.base, d.base, pat, tuple(ys0), strings.Join(eqs, " && "))
 	return b.String()
+}
+
+func (f *ftrans) openSection() {
+	if !*f.section {
+		*f.section = true
+		*f.extra = append(*f.extra, "Section WithTracker.\n")
+	}
 }
 
 func (f *ftrans) needType(t gtyp) {
@@ -218,7 +261,11 @@ func (f *ftrans) needType(t gtyp) {
 	case kSPtr:
 		if !f.emitted[d.base] {
 			f.emitted[d.base] = true
+			f.openSection()
 			*f.extra = append(*f.extra, sptrDefs(d))
+			if d.rest {
+				sectionRestVars = append(sectionRestVars, d.base+"_rest")
+			}
 		}
 	case kIface:
 		f.needTracker(d)
@@ -474,6 +521,32 @@ type ifaceMethod struct {
 
 var ifaceMethods = map[string]ifaceMethod{}
 
+// the abstract "other fields" types declared in the section, in order; after the section is
+// closed they are leading implicit arguments of everything that mentions them
+var sectionRestVars []string
+
+// after End: the projections of the Tracker record take all their type arguments implicitly
+func sectionEpilogue() string {
+	var names []string
+	for n := range ifaceMethods {
+		names = append(names, n)
+	}
+	sortStrings(names)
+	var b strings.Builder
+	for _, n := range names {
+		fmt.Fprintf(&b, "Arguments go_state_Tracker_%s {%s} _.\n", n, strings.Join(append(append([]string{}, sectionRestVars...), "ST"), " "))
+	}
+	return b.String()
+}
+
+func sortStrings(a []string) {
+	for i := 1; i < len(a); i++ {
+		for j := i; j > 0 && a[j] < a[j-1]; j-- {
+			a[j], a[j-1] = a[j-1], a[j]
+		}
+	}
+}
+
 func (f *ftrans) needTracker(d *dynType) {
 	if f.emitted["$tracker"] {
 		return
@@ -527,9 +600,9 @@ func (f *ftrans) needTracker(d *dynType) {
 	b.WriteString("(* type Tracker interface of package state: an abstract state ST and one function per method,\n   from the state and the arguments to the new state and the result *)\n")
 	b.WriteString("Record go_state_Tracker (ST : Type) := {\n" + strings.Join(fields, ";\n") + "\n}.\n")
 	b.WriteString(strings.Join(argsDecl, "\n") + "\n\n")
-	b.WriteString("Section WithTracker.\nContext {ST : Type}.\nVariable trk : go_state_Tracker ST.\n")
+	b.WriteString("Context {ST : Type}.\nVariable trk : go_state_Tracker ST.\n")
+	f.openSection()
 	*f.extra = append(*f.extra, b.String())
-	*f.section = true
 }
 
 // x.M(args) on a Tracker-typed variable
@@ -743,14 +816,12 @@ func (f *ftrans) valueField(e ast.Expr) (base ast.Expr, d *dynType, idx int, ok 
 // p.F = v is accepted when no OTHER variable of the same pointer type is used later in the
 // function (it could point to the same object) and the statement is not in a loop
 func (f *ftrans) ptrWriteOK(target ast.Expr, inLoop bool) {
-	if inLoop {
-		failf("field assignment through a pointer inside a loop")
-	}
 	tk := exprText(f.pi, target)
 	tt := goType(f.info.TypeOf(target))
 	ast.Inspect(f.fd.Body, func(n ast.Node) bool {
 		e, ok := n.(ast.Expr)
-		if !ok || n.Pos() <= target.End() {
+		// in a loop "later" is anywhere in the function
+		if !ok || (!inLoop && n.Pos() <= target.End()) {
 			return true
 		}
 		switch e.(type) {
@@ -823,4 +894,227 @@ func (f *ftrans) base64Call(x *ast.CallExpr) (ex, bool) {
 	}
 	failf("call %s", exprText(f.pi, fn))
 	return ex{}, false
+}
+
+// p.Equals(q) on value-modelled pointers, when the method's body in package state is
+// `return reflect.DeepEqual(recv, arg)`: equality of the two values (nil = nil)
+func (f *ftrans) equalsCall(fn *ast.SelectorExpr, x *ast.CallExpr) (ex, bool) {
+	if fn.Sel.Name != "Equals" || len(x.Args) != 1 {
+		return ex{}, false
+	}
+	ty := goType(f.info.TypeOf(fn.X))
+	d := ty.dyn()
+	if d == nil || d.kind != kSPtr || goType(f.info.TypeOf(x.Args[0])) != ty {
+		return ex{}, false
+	}
+	// check the source of the method
+	sp := f.pkgs[d.named.Obj().Pkg().Name()]
+	if sp == nil {
+		failf("package %s is not loaded", d.named.Obj().Pkg().Name())
+	}
+	fd := sp.funcs[d.named.Obj().Name()+".Equals"]
+	ok := false
+	if fd != nil && fd.Body != nil && len(fd.Body.List) == 1 && fd.Recv != nil && len(fd.Recv.List[0].Names) == 1 && len(fd.Type.Params.List) == 1 && len(fd.Type.Params.List[0].Names) == 1 {
+		if rs, isRet := fd.Body.List[0].(*ast.ReturnStmt); isRet && len(rs.Results) == 1 {
+			if call, isCall := rs.Results[0].(*ast.CallExpr); isCall && len(call.Args) == 2 {
+				if se, isSel := call.Fun.(*ast.SelectorExpr); isSel && se.Sel.Name == "DeepEqual" {
+					if pk, isId := se.X.(*ast.Ident); isId && pk.Name == "reflect" {
+						a0, ok0 := call.Args[0].(*ast.Ident)
+						a1, ok1 := call.Args[1].(*ast.Ident)
+						if ok0 && ok1 && a0.Name == fd.Recv.List[0].Names[0].Name && a1.Name == fd.Type.Params.List[0].Names[0].Name {
+							ok = true
+						}
+					}
+				}
+			}
+		}
+	}
+	if !ok {
+		failf("method %s.Equals is not reflect.DeepEqual(receiver, argument)", d.named.Obj().Name())
+	}
+	f.needType(ty)
+	a, b := f.expr(fn.X), f.expr(x.Args[0])
+	return ex{pre: cat(a.pre, b.pre), t: d.base + "_eqb " + arg(a) + " " + arg(b), p: 1, ty: tBool}, true
+}
+
+// ---------------------------------------------------------------------------------------
+// lock_panic_sites: statements that can panic while a mutex is held WITHOUT a deferred unlock.
+//
+// For every function of the packages: a mutex x is "held without defer" between a statement
+// x.Lock() / x.RLock() and the next x.Unlock() / x.RUnlock() statement (source order; to the end
+// of the function when there is none), unless the function defers the unlock of x.  A statement
+// or control-statement header in such a region is a SITE when it contains, conservatively,
+// something that can panic: an index expression on a non-map, a slice expression, a type
+// assertion without comma-ok, a call of panic, a division, or a call of a function / method
+// that go2coq translates (their generated type is res).  A panic there leaves the mutex locked
+// for ever (the callers recover).  Emitted as (function, text) pairs, in source order.
+func lockFacts(pkgs map[string]*pkgInfo) string {
+	var b strings.Builder
+	b.WriteString("(* GENERATED from the Go source by /verif/translator (go2coq2.go: lockFacts) on every check run — do not edit.\n")
+	b.WriteString("   lock_panic_sites_<pkg>: (function, statement) pairs: a statement that can panic (conservatively:\n")
+	b.WriteString("   index on a non-map, slice expression, unchecked type assertion, panic(), division, call of a\n")
+	b.WriteString("   translated function) executed while a mutex locked in the SAME function is held without a\n")
+	b.WriteString("   deferred unlock. *)\n")
+	b.WriteString("From Coq Require Import String List.\nImport ListNotations.\nLocal Open Scope string_scope.\n\n")
+	translated := map[string]bool{}
+	for _, t := range go2coqTargets {
+		translated[t] = true
+	}
+	for _, pn := range []string{"client", "state"} {
+		pi := pkgs[pn]
+		if pi == nil {
+			continue
+		}
+		f := &ftrans{pi: pi, info: pi.pkg.TypesInfo}
+		var names []string
+		for n := range pi.funcs {
+			if strings.HasPrefix(n, "Verif") || strings.Contains(n, ".Verif") {
+				continue
+			}
+			names = append(names, n)
+		}
+		sortStrings(names)
+		var sites []string
+		for _, n := range names {
+			fd := pi.funcs[n]
+			if fd.Body == nil {
+				continue
+			}
+			type span struct{ lo, hi token.Pos }
+			deferred := map[string]bool{}
+			type ev struct {
+				pos  token.Pos
+				x    string
+				lock bool
+			}
+			var evs []ev
+			ast.Inspect(fd.Body, func(nd ast.Node) bool {
+				switch s := nd.(type) {
+				case *ast.FuncLit:
+					return false
+				case *ast.DeferStmt:
+					if f.isMutexCall(s.Call) {
+						deferred[exprText(pi, s.Call.Fun.(*ast.SelectorExpr).X)] = true
+					}
+					return false
+				case *ast.ExprStmt:
+					if call, ok := s.X.(*ast.CallExpr); ok && f.isMutexCall(call) {
+						se := call.Fun.(*ast.SelectorExpr)
+						evs = append(evs, ev{s.Pos(), exprText(pi, se.X), se.Sel.Name == "Lock" || se.Sel.Name == "RLock"})
+					}
+				}
+				return true
+			})
+			var spans []span
+			for i, e := range evs {
+				if !e.lock || deferred[e.x] {
+					continue
+				}
+				hi := fd.Body.End()
+				for _, u := range evs[i+1:] {
+					if !u.lock && u.x == e.x {
+						hi = u.pos
+						break
+					}
+				}
+				spans = append(spans, span{e.pos, hi})
+			}
+			if len(spans) == 0 {
+				continue
+			}
+			inSpan := func(p token.Pos) bool {
+				for _, s := range spans {
+					if p > s.lo && p < s.hi {
+						return true
+					}
+				}
+				return false
+			}
+			canPanic := func(nd ast.Node) bool {
+				found := false
+				ast.Inspect(nd, func(x ast.Node) bool {
+					switch e := x.(type) {
+					case *ast.FuncLit:
+						return false
+					case *ast.IndexExpr:
+						if _, isMap := pi.pkg.TypesInfo.TypeOf(e.X).Underlying().(*types.Map); !isMap {
+							found = true
+						}
+					case *ast.SliceExpr:
+						found = true
+					case *ast.TypeAssertExpr:
+						found = true // the comma-ok form is told apart below
+					case *ast.BinaryExpr:
+						if e.Op == token.QUO || e.Op == token.REM {
+							found = true
+						}
+					case *ast.CallExpr:
+						if id, ok := e.Fun.(*ast.Ident); ok {
+							if id.Name == "panic" {
+								found = true
+							}
+							if fn, ok := pi.pkg.TypesInfo.Uses[id].(*types.Func); ok && fn.Pkg() == pi.pkg.Types && translated[fn.Name()] && pn == "client" {
+								found = true
+							}
+						}
+						if se, ok := e.Fun.(*ast.SelectorExpr); ok {
+							if sel := pi.pkg.TypesInfo.Selections[se]; sel != nil && sel.Kind() == types.MethodVal && pn == "client" {
+								if translated[recvTypeName(sel.Recv())+"."+se.Sel.Name] {
+									found = true
+								}
+							}
+						}
+					}
+					return !found
+				})
+				return found
+			}
+			add := func(nd ast.Node) {
+				if nd == nil || !inSpan(nd.Pos()) || !canPanic(nd) {
+					return
+				}
+				var sb strings.Builder
+				printerFprint(&sb, pi, nd)
+				txt := strings.Join(strings.Fields(sb.String()), " ")
+				sites = append(sites, fmt.Sprintf("(%s, %s)", coqStr(n), coqStr(txt)))
+			}
+			ast.Inspect(fd.Body, func(nd ast.Node) bool {
+				switch s := nd.(type) {
+				case *ast.FuncLit:
+					return false
+				case *ast.AssignStmt:
+					if len(s.Rhs) == 1 {
+						if ta, ok := s.Rhs[0].(*ast.TypeAssertExpr); ok && len(s.Lhs) == 2 {
+							add(ta.X) // v, ok := x.(T) does not panic
+							return false
+						}
+					}
+					add(s)
+					return false
+				case *ast.ExprStmt, *ast.IncDecStmt, *ast.SendStmt, *ast.ReturnStmt, *ast.GoStmt:
+					add(s)
+					return false
+				case *ast.IfStmt:
+					add(s.Cond)
+				case *ast.ForStmt:
+					if s.Cond != nil {
+						add(s.Cond)
+					}
+				case *ast.RangeStmt:
+					add(s.X)
+				case *ast.SwitchStmt:
+					if s.Tag != nil {
+						add(s.Tag)
+					}
+				case *ast.CaseClause:
+					for _, e := range s.List {
+						add(e)
+					}
+				}
+				return true
+			})
+		}
+		fmt.Fprintf(&b, "Definition lock_panic_sites_%s : list (string * string) :=\n  [%s].\n\n", pn, strings.Join(sites, ";\n   "))
+	}
+	return b.String()
 }
